@@ -350,14 +350,29 @@ def oracle(ctx, case, real):
 # case generation
 # ---------------------------------------------------------------------------------------------------------------------
 
-def baseline_len(ctx, shape, pool, reconnect):
-    """number of DB-API calls of the session under test without faults (from the model; checked against the real run)"""
+_BASE = {}
+
+
+def baseline_request(shape, pool, reconnect):
     case = {'shape': shape, 'pool': pool, 'faults': [], 'reconnect': reconnect}
-    init = {'n': 0, 'nextCon': 0, 'poolPid': False, 'closed': []}
-    out = ctx.driver('C19', [model_request(case, init)])[0]
-    i = 0 if pool == 'fresh' else 1
-    n_before = out['sessions'][i - 1]['state']['n'] if i else 0
-    return out['sessions'][i]['state']['n'] - n_before, n_before
+    return model_request(case, {'n': 0, 'nextCon': 0, 'poolPid': False, 'closed': []})
+
+
+def load_baselines(ctx):
+    """fault-free model runs of every (shape, pool, reconnect): ONE driver call"""
+    keys = [(sh, pool, rc) for sh in SHAPES for pool in POOLS for rc in (False, True)]
+    outs = ctx.driver('C19', [baseline_request(*k) for k in keys])
+    for k, out in zip(keys, outs):
+        i = 0 if k[1] == 'fresh' else 1
+        n_before = out['sessions'][i - 1]['state']['n'] if i else 0
+        _BASE[k] = (out['sessions'][i]['state']['n'] - n_before, n_before, out['sessions'][i]['events'])
+
+
+def baseline_len(ctx, shape, pool, reconnect):
+    """number of DB-API calls of the session under test without faults (from the model; checked against the real run),
+    and the number of calls of the warm-up session before it"""
+    if not _BASE: load_baselines(ctx)
+    return _BASE[(shape, pool, reconnect)][:2]
 
 
 def generate_cases(ctx):
@@ -565,22 +580,22 @@ def thread_scenarios(ctx, workdir):
     rng = ctx.rng
     tcs = []
     for shape in THREAD_SHAPES:
-        n, _ = baseline_len(ctx, shape, 'fresh', False)
-        out = ctx.driver('C19', [model_request({'shape': shape, 'pool': 'fresh', 'faults': [], 'reconnect': False},
-                                               {'n': 0, 'nextCon': 0, 'poolPid': False, 'closed': []})])[0]
-        calls = [e[0] for e in out['sessions'][0]['events'] if len(e) == 4]
+        baseline_len(ctx, shape, 'fresh', False)
+        calls = [e[0] for e in _BASE[(shape, 'fresh', False)][2] if len(e) == 4]
         points = [None]; seen = {}
         for c in calls:
             points.append((c, seen.get(c, 0))); seen[c] = seen.get(c, 0) + 1
         for extra in ('rollback', 'close'):        # calls that only error handling makes
             points.append((extra, seen.get(extra, 0)))
-        if not ctx.thorough: points = [None] + rng.sample(points[1:], min(len(points) - 1, 4 if shape in ('read', 'body_exc', 'm2m', 'commit_mid') else 7))
+        if not ctx.thorough: points = [None] + rng.sample(points[1:], min(len(points) - 1, 3 if shape in ('read', 'body_exc', 'm2m', 'commit_mid') else 5))
         for pt in points:
             tcs.append({'id': len(tcs), 'shape': shape, 'fault': pt, 'others': 2 if (len(tcs) % 3) else 1,
                         'exc_class': EXC_CLASSES[len(tcs) % len(EXC_CLASSES)]})
-    for tc in tcs:
-        r = thread_case(workdir, tc)
+    reals = [thread_case(workdir, tc) for tc in tcs]
+    reqs, where = [], []
+    for tc, r in zip(tcs, reals):
         inp = {'shape': tc['shape'], 'fault': list(tc['fault']) if tc['fault'] else None, 'others': tc['others'], 'exc_class': tc['exc_class'].__name__}
+        tc['inp'] = inp
         ctx.case(['threads', inp['shape'], inp['fault'], inp['others']], kind='threads:' + tc['shape'])
         ctx.count('threads-queued:%d' % len(r['queued']))
         key = 'threads:shape=%s;fault=%s;others=%d' % (tc['shape'], '%s#%d' % tc['fault'] if tc['fault'] else '-', tc['others'])
@@ -610,22 +625,27 @@ def thread_scenarios(ctx, workdir):
             lock_lists.append([e[0] for e in evs if len(e) == 1])
             db = [e for e in evs if len(e) == 4]
             faults = [i for i, e in enumerate(db) if e[3] != 'ok']
-            shape = tc['shape'] if n == 'A' else None
-            o, b, prog, br = SHAPES[shape] if shape else FOLLOW
-            req = {'op': 'run', 'init': {'n': 0, 'nextCon': 0, 'poolPid': False, 'closed': []},
-                   'sessions': [dict(session_cfg(o, False), prog=prog, bodyRaises=br, faults=faults)]}
-            m = ctx.driver('C19', [req])[0]
-            m_ev = canon_model_events(m['sessions'][0]['events'])
-            if m_ev != evs or m['sessions'][0]['outcome'] != r['results'].get(n, {}).get('outcome'):
-                ctx.divergence('thread %s: model and real session disagree' % n, inp, model={'events': m_ev, 'outcome': m['sessions'][0]['outcome']},
-                               impl={'events': evs, 'outcome': r['results'].get(n)})
+            o, b, prog, br = SHAPES[tc['shape']] if n == 'A' else FOLLOW
+            reqs.append({'op': 'run', 'init': {'n': 0, 'nextCon': 0, 'poolPid': False, 'closed': []},
+                         'sessions': [dict(session_cfg(o, False), prog=prog, bodyRaises=br, faults=faults)]})
+            where.append(('thread', tc, r, n, evs))
         # ---- correspondence 2: the observed global order of lock events is a run of the interleaving model
         idx = {n: i for i, n in enumerate(r['names'])}
-        sched = [idx[th] for th, call, oc in r['lock_order']]
-        w = ctx.driver('C19', [{'op': 'schedule', 'threads': lock_lists, 'schedule': sched}])[0]
-        if 'driver_error' in w or not all(w['enabled']) or w['pre'] or w['tx'] or not all(w['finished']) or w['holders_tx'] != 0:
-            ctx.divergence('the observed order of lock operations is not a run of the interleaving model', inp, model=w,
-                           impl={'lock_order': r['lock_order']})
+        reqs.append({'op': 'schedule', 'threads': lock_lists, 'schedule': [idx[th] for th, call, oc in r['lock_order']]})
+        where.append(('schedule', tc, r, None, None))
+    outs = ctx.driver('C19', reqs)
+    for (what, tc, r, n, evs), m in zip(where, outs):
+        if 'driver_error' in m:
+            ctx.divergence('driver error', tc['inp'], model=m); continue
+        if what == 'thread':
+            m_ev = canon_model_events(m['sessions'][0]['events'])
+            if m_ev != evs or m['sessions'][0]['outcome'] != r['results'].get(n, {}).get('outcome'):
+                ctx.divergence('thread %s: model and real session disagree' % n, tc['inp'], model={'events': m_ev, 'outcome': m['sessions'][0]['outcome']},
+                               impl={'events': evs, 'outcome': r['results'].get(n)})
+        else:
+            if not all(m['enabled']) or m['pre'] or m['tx'] or not all(m['finished']) or m['holders_tx'] != 0:
+                ctx.divergence('the observed order of lock operations is not a run of the interleaving model', tc['inp'], model=m,
+                               impl={'lock_order': r['lock_order']})
 
 
 def run(ctx):
